@@ -4,8 +4,12 @@
 //!   cross : (Rust type T, arbitrary Value x): `T::deserialize(x)` / `(&x)`  vs  Model.Serde.de
 //!           (the acceptance table of serde's visitors, exercised off the round-trip diagonal)
 //!   ctx   : `Context::from_serialize(&v)` read back key by key  vs  Model.Serde.from_serialize
+//!   reser : an arbitrary Value through `Value::try_from_serializable(&value)` (`impl Serialize for Value`
+//!           / `for Key`)  vs  Model.Serde.reser
 //! Oracles (implementation side): integers print as Rust's own `Display`; `from_serialize` ==
-//! `insert` per field == `insert_value` of the converted field; no panic anywhere.
+//! `insert` per field == `insert_value` of the converted field; on every rt case the converted value sent
+//! through serde again is strictly the same value and `insert(k, &converted)` stores and renders what
+//! `insert_value(k, converted)` does; no panic anywhere.
 #![allow(non_camel_case_types)]
 use serde::de::DeserializeOwned;
 use serde::{Deserialize, Serialize};
@@ -605,11 +609,42 @@ fn collect_oracles(v: &Value, strs: &mut BTreeMap<String, String>, floats: &mut 
     }
 }
 
+/// Strict canonical text: kind, representation, safe flag, key kinds — everything except the
+/// String-vs-Str variant of string keys (which `Key: Eq/Hash/Ord/Display` ignore).
+fn strict_text(v: &Value) -> String {
+    use tera::value::Key;
+    use tera::value::ValueKind as K;
+    match v.kind() {
+        K::Array => format!("[{}]", v.as_array().unwrap().iter().map(strict_text).collect::<Vec<_>>().join(",")),
+        K::Map => {
+            let parts: Vec<String> = sorted_entries(v.as_map().unwrap())
+                .into_iter()
+                .map(|(k, x)| {
+                    let kt = match k {
+                        Key::Bool(b) => format!("bool:{b}"),
+                        Key::U64(u) => format!("u64:{u}"),
+                        Key::I64(i) => format!("i64:{i}"),
+                        Key::U128(u) => format!("u128:{u}"),
+                        Key::I128(i) => format!("i128:{i}"),
+                        Key::String(s) => format!("str:{s:?}"),
+                        Key::Str(s) => format!("str:{s:?}"),
+                        _ => "?".to_string(),
+                    };
+                    format!("{kt}=>{}", strict_text(x))
+                })
+                .collect();
+            format!("{{{}}}", parts.join(","))
+        }
+        _ => gal_value(v),
+    }
+}
+
 struct Run<'a> {
     tera: &'a Tera,
     rt: Sink,
     cross: Sink,
     ctx: Sink,
+    reser: Sink,
     meta: Meta,
     oracle_only: usize,
 }
@@ -645,6 +680,40 @@ fn run_rt<T: Model>(run: &mut Run, v: &T, tname: &str) {
             let text = guarded(|| run.tera.render_str("{{ v }}", &c, false));
             if let Outcome::Panic(m) = &text {
                 run.meta.oracle_fail(&format!("panic in render: {m}"), None, json!({"type": tname, "value": format!("{v:?}")}));
+            }
+            // the converted value sent through serde again: same value; insert == insert_value
+            run.meta.oracle_checks += 1;
+            let again = guarded(|| Value::try_from_serializable(val));
+            match &again {
+                Outcome::Ok(a) if strict_text(a) == strict_text(val) && a == val => {}
+                other => run.meta.oracle_fail(
+                    "a converted value sent through serde again (Value::from_serializable(&converted)) is not the same value",
+                    None,
+                    json!({"type": tname, "value": format!("{v:?}"), "converted": json_value(val), "again": other.json(json_value)}),
+                ),
+            }
+            let ins = guarded(|| {
+                let mut c1 = Context::new();
+                c1.insert("v", val);
+                let mut c2 = Context::new();
+                c2.insert_value("v", val.clone());
+                let probe = "{{ v }}";
+                let t1 = run.tera.render_str(probe, &c1, false)?;
+                let t2 = run.tera.render_str(probe, &c2, false)?;
+                let same_store = match (c1.get("v"), c2.get("v")) {
+                    (Some(a), Some(b)) => strict_text(a) == strict_text(b) && a == b,
+                    _ => false,
+                };
+                Ok((c1 == c2 && same_store, t1, t2))
+            });
+            match &ins {
+                Outcome::Ok((true, t1, t2)) if t1 == t2 => {}
+                other => run.meta.oracle_fail(
+                    "Context::insert(k, &converted) and Context::insert_value(k, converted) are not interchangeable",
+                    None,
+                    json!({"type": tname, "value": format!("{v:?}"), "converted": json_value(val),
+                           "insert_vs_insert_value": other.json(|(eq, a, b)| json!({"contexts_equal": eq, "insert_renders": a, "insert_value_renders": b}))}),
+                ),
             }
             let mut strs = BTreeMap::new();
             let mut floats = BTreeMap::new();
@@ -707,6 +776,59 @@ fn run_cross<T: Model>(run: &mut Run, val: &Value, tname: &str) {
     let desc = json!({"type": tname, "from": json_value(val), "owned": o.1, "byref": b.1});
     let ok = o.0.starts_with("(ROk");
     run.cross.push(g, desc, ok, kf_for(&ty, differs), &[if ok { "impl:ok" } else { "impl:err" }]);
+}
+
+fn run_reser(run: &mut Run, val: &Value) {
+    let r = guarded(|| Value::try_from_serializable(val));
+    run.meta.oracle_checks += 1;
+    if let Outcome::Panic(m) = &r {
+        run.meta.oracle_fail(&format!("panic in try_from_serializable(&value): {m}"), None, json!({"value": json_value(val)}));
+    }
+    let g = format!("{{| r_val := {}; r_impl := {} |}}", gal_value(val), r.gal(gal_value));
+    let desc = json!({"value": json_value(val), "reserialized": r.json(json_value)});
+    let nontrivial = val.is_map() || val.is_array();
+    let tag = if val.is_map() { "map" } else if val.is_array() { "array" } else { "scalar" };
+    run.reser.push(g, desc, nontrivial, None, &[tag]);
+}
+
+/// maps with every key kind (Bool, U64, I64, U128, I128, String, Str) over every value kind, nested
+fn reser_pool(base: &[Value]) -> Vec<Value> {
+    use tera::value::Key;
+    let mut out: Vec<Value> = Vec::new();
+    let kinds = pools::kind_pool();
+    let keys: Vec<Key<'static>> = vec![
+        Key::Bool(true), Key::Bool(false), Key::U64(0), Key::U64(u64::MAX), Key::I64(-1), Key::I64(i64::MIN), Key::I64(7),
+        Key::U128(u128::MAX), Key::U128(3), Key::I128(i128::MIN), Key::I128(5), Key::String(std::sync::Arc::from("owned")),
+        Key::Str("borrowed"), Key::Str(""), Key::String(std::sync::Arc::from("é日")), Key::Str("true"), Key::Str("1"),
+    ];
+    // one key kind x every value kind
+    for k in &keys {
+        for v in &kinds {
+            let mut m = tera::Map::new();
+            m.insert(k.clone(), v.clone());
+            out.push(Value::from(m));
+        }
+    }
+    // all key kinds in one map (numerically distinct), values of every kind
+    let mut m = tera::Map::new();
+    for (i, k) in keys.iter().enumerate() {
+        m.insert(k.clone(), kinds[i % kinds.len()].clone());
+    }
+    let all = Value::from(m);
+    out.push(all.clone());
+    // nested: map in array in map, bool-keyed map as a struct field
+    let mut inner = tera::Map::new();
+    inner.insert(Key::Bool(true), Value::from("yes"));
+    inner.insert(Key::Bool(false), Value::from("no"));
+    let mut outer = tera::Map::new();
+    outer.insert(Key::Str("labels"), Value::from(inner.clone()));
+    outer.insert(Key::Str("list"), Value::from(vec![Value::from(inner.clone()), all.clone(), Value::undefined(), Value::safe_string("<b>"), Value::bytes(vec![0xff, 0x00])]));
+    outer.insert(Key::I128(-9), all);
+    out.push(Value::from(outer));
+    out.push(Value::from(vec![Value::from(inner)]));
+    out.extend(kinds);
+    out.extend(base.iter().cloned());
+    out
 }
 
 fn run_ctx<T: Model>(run: &mut Run, v: &T, tname: &str) {
@@ -859,6 +981,7 @@ fn main() {
         rt: Sink::new(&args.out, "rt", hdr, "check_rt"),
         cross: Sink::new(&args.out, "cross", hdr, "check_cross"),
         ctx: Sink::new(&args.out, "ctx", hdr, "check_ctx"),
+        reser: Sink::new(&args.out, "reser", hdr, "check_reser"),
         meta: Meta::default(),
         oracle_only: 0,
     };
@@ -891,15 +1014,25 @@ fn main() {
     let n_cross = if thorough { 110 } else { 8 };
     for_all_types!(do_cross, &mut run, &mut rng, n_cross, &pool, &nums);
 
+    // every Value of the pools (converted values of all types + hand-made) through serde again
+    let rp = reser_pool(&pool);
+    let n_reser = if thorough { rp.len() } else { rp.len().min(900) };
+    for (i, x) in rp.iter().enumerate() {
+        if i < 320 || thorough || i % ((rp.len() / n_reser).max(1)) == 0 {
+            run_reser(&mut run, x);
+        }
+    }
+
     let n_ctx = if thorough { 30 } else { 3 };
     for_all_types!(do_ctx, &mut run, &mut rng, n_ctx);
 
-    let Run { rt, cross, ctx, mut meta, oracle_only, .. } = run;
+    let Run { rt, cross, ctx, reser, mut meta, oracle_only, .. } = run;
     meta.extra.insert("oracle_only_evaluations".into(), json!(oracle_only));
     meta.extra.insert("oracle_only_nontrivial".into(), json!(oracle_only));
     meta.extra.insert("cross_pool_size".into(), json!(pool.len()));
     meta.families.push(rt.finish());
     meta.families.push(cross.finish());
     meta.families.push(ctx.finish());
+    meta.families.push(reser.finish());
     meta.write(&args.out);
 }
